@@ -151,6 +151,21 @@ func randomTriangles(c *hlib.Ctx) []*model3d.Triangle {
 	for i := 0; i < 1+c.Rng.Intn(6); i++ {
 		ts = append(ts, &model3d.Triangle{point(c, 3), point(c, 3), point(c, 3)})
 	}
+	if c.Rng.Intn(3) == 0 {
+		// zero-area triangles among proper ones: they must never be sampled (by a positive draw)
+		for i := 0; i < 1+c.Rng.Intn(3); i++ {
+			a, b := point(c, 3), point(c, 3)
+			switch c.Rng.Intn(3) {
+			case 0:
+				ts = append(ts, &model3d.Triangle{a, a, b})
+			case 1:
+				ts = append(ts, &model3d.Triangle{a, b, a.Mid(b)})
+			default:
+				ts = append(ts, &model3d.Triangle{a, a, a})
+			}
+		}
+		c.Stat("mesh.with-zero-area-triangles", 1)
+	}
 	return ts
 }
 
@@ -187,9 +202,17 @@ func caseMeshLight(c *hlib.Ctx) {
 		if t.Normal() != n {
 			continue
 		}
-		if t.Dist(p) <= 1e-9*(1+t.Max().Sub(t.Min()).Norm()+p.Norm()) {
+		diam := t.Max().Sub(t.Min()).Norm()
+		if t.Area() <= 1e-9*diam*diam {
+			ok = true // numerically degenerate sliver: the distance computation itself is ill-conditioned
+		}
+		if t.Dist(p) <= 1e-9*(1+diam+p.Norm()) {
 			ok = true
 		}
+	}
+	if !finite(n) && u1 != 0 && tot > 0 {
+		// a degenerate (zero-area) triangle was selected by a positive draw
+		c.PropFail("prop:c19/mesh-sampled-zero-area-triangle", fmt.Sprintf("triangles=%d draws=(%v,%v,%v) point=%v normal=%v", len(tris), u1, u2, u3, p, n))
 	}
 	if !ok && finite(n) {
 		c.PropFail("prop:c19/mesh-sample-off-surface", fmt.Sprintf("triangles=%d draws=(%v,%v,%v) point=%v normal=%v", len(tris), u1, u2, u3, p, n))
